@@ -9,11 +9,15 @@ package main
 import (
 	"context"
 	"fmt"
+	"os"
 	"sort"
 	"strings"
+	"sync"
 	"time"
 
 	"anndbverif/explore"
+	"anndbverif/lib/ev"
+	"anndbverif/lib/racepass"
 	"anndbverif/vrt"
 	"anndbverif/vrt/fakes"
 	"anndbverif/world"
@@ -371,6 +375,123 @@ func historyScenario(n int, removed uint64, dialed bool, readd bool) *explore.Sc
 	}
 }
 
+// replaceScenario: one allocator lives through the membership changes (as the server's does): it places, then a node
+// leaves and another one joins with no placement in between (the member COUNT is what it was), then it places again.
+func replaceScenario(n int, leaves, joins uint64) *explore.Scenario {
+	return &explore.Scenario{
+		Name:             fmt.Sprintf("history-N%d-place-then-node%d-replaced-by-node%d-then-place", n, leaves, joins),
+		MaxBound:         0,
+		StopWhenMainDone: true,
+		Configure:        func(s *vrt.Sched) { s.RandChoose = true },
+		Build: func(x *explore.Exec) func(vrt.EndReason) *explore.Violation {
+			world.Quiet()
+			var first, pl [][]uint64
+			done := false
+			var conn *cluster.Conn
+			x.OnCleanup(func() {
+				if conn != nil {
+					conn.Close()
+				}
+			})
+			x.S.Spawn("caller", true, func() {
+				conn = newConn(n)
+				a := storage.NewAllocator(conn)
+				first = a.VerifPlacement(1, uint(n))
+				conn.RemoveNode(leaves)
+				conn.AddNode(joins, world.Addr(joins))
+				pl = a.VerifPlacement(2, uint(n))
+				done = true
+			})
+			return func(end vrt.EndReason) *explore.Violation {
+				if !done {
+					return &explore.Violation{Key: "placement-never-returns", Desc: strings.Join(x.S.Blocked(), "; ")}
+				}
+				x.Outcome = fmt.Sprint(first, pl)
+				if d := clause1(first, n, n, 1); d != "" {
+					return &explore.Violation{Key: "wrong-cardinality-or-membership", Desc: "before the replacement: " + d}
+				}
+				for i, nodes := range pl {
+					seen := map[uint64]bool{}
+					for _, id := range nodes {
+						member := id >= 1 && id <= uint64(n) && id != leaves || id == joins
+						if !member || seen[id] {
+							return &explore.Violation{Key: "placed-on-non-member", Desc: fmt.Sprintf("node %d left and node %d joined after the first placement; partition %d of the next one is placed on %v", leaves, joins, i, nodes)}
+						}
+						seen[id] = true
+					}
+					if len(nodes) != n {
+						return &explore.Violation{Key: "wrong-cardinality-or-membership", Desc: fmt.Sprintf("%d members, R=%d: partition %d got %v", n, n, i, nodes)}
+					}
+				}
+				return nil
+			}
+		},
+	}
+}
+
+// racePass: the free-running twin (plain build, race detector): several placements at once on one allocator, as
+// concurrent Create requests make them, while a node joins and leaves. Sampling, reported as such.
+func racePass() {
+	world.Quiet()
+	const n = 16
+	conn := newConn(n)
+	a := storage.NewAllocator(conn)
+	var wg sync.WaitGroup
+	var mu sync.Mutex
+	bad := ""
+	iters := 150
+	if os.Getenv("VERIF_TIER") == "thorough" {
+		iters = 1500
+	}
+	stop := make(chan struct{})
+	go func() {
+		for {
+			select {
+			case <-stop:
+				return
+			default:
+			}
+			conn.AddNode(17, world.Addr(17))
+			conn.RemoveNode(17)
+		}
+	}()
+	for g := 0; g < 8; g++ {
+		wg.Add(1)
+		go func() {
+			defer wg.Done()
+			for i := 0; i < iters; i++ {
+				pl := a.VerifPlacement(64, 3)
+				for pi, nodes := range pl {
+					seen := map[uint64]bool{}
+					for _, id := range nodes {
+						if id < 1 || id > 17 || seen[id] {
+							mu.Lock()
+							if bad == "" {
+								bad = fmt.Sprintf("concurrent placements on 16(+1 coming and going) members, R=3: partition %d placed on %v", pi, nodes)
+							}
+							mu.Unlock()
+						}
+						seen[id] = true
+					}
+					if len(nodes) != 3 {
+						mu.Lock()
+						if bad == "" {
+							bad = fmt.Sprintf("concurrent placements, R=3: partition %d got %v", pi, nodes)
+						}
+						mu.Unlock()
+					}
+				}
+			}
+		}()
+	}
+	wg.Wait()
+	close(stop)
+	if bad != "" {
+		fmt.Println("FREE-RUNNING-VIOLATION placed-on-non-member-or-twice: " + bad)
+	}
+	fmt.Printf("RACEPASS placements=%d\n", 8*iters)
+}
+
 // streamScenario: clause 1 for all N<=16, R<=8, P<=64 under one fixed random stream.
 func streamScenario(seed int) *explore.Scenario {
 	return &explore.Scenario{
@@ -420,7 +541,16 @@ func streamScenario(seed int) *explore.Scenario {
 	}
 }
 
+const c20Keys = `^(node-listed-before-its-membership-change-is-applied|member-missing-from-view|member-listed-with-wrong-address|member-listed-without-address|removed-node-still-listed)`
+
 func main() {
+	if len(os.Args) > 2 && os.Args[1] == "--replay" && ev.PartOf(os.Args[2]) == "C20" {
+		ev.ReplayPart("C16", os.Getenv("VERIF_BIN_C20"), c20Keys, os.Args[2], "VERIF_PART_MODE=directed", "VERIF_TUNABLE_snapshotOffset=0")
+	}
+	if len(os.Args) > 1 && os.Args[1] == "--race-pass" {
+		racePass()
+		return
+	}
 	var scs []*explore.Scenario
 	for n := 1; n <= 4; n++ {
 		for r := 1; r <= 4; r++ {
@@ -447,13 +577,22 @@ func main() {
 		}
 	}
 	scs = append(scs, replayScenario())
-	explore.Main("C16", scs, explore.Plan{QuickBound: 0, ThoroughBound: 0, QuickBudget: 200 * time.Second, ThoroughBudget: 15 * time.Minute, Shards: 1},
+	scs = append(scs, replaceScenario(3, 3, 7), replaceScenario(2, 2, 5), replaceScenario(4, 2, 9))
+	before := func(run *ev.Run) ev.Coverage {
+		// "all of them current members": placement draws from the node's address book. What that book holds after joins,
+		// removals, compactions, restarts, lagging and joins that cannot commit yet is decided on real servers by C20's
+		// directed membership histories, counted here for a book that differs from the membership
+		run.RunPart("address-book-C20", os.Getenv("VERIF_BIN_C20"), c20Keys, "VERIF_PART_MODE=directed", "VERIF_TUNABLE_snapshotOffset=0")
+		return racepass.Run(run, os.Getenv("VERIF_C16_RACE"))
+	}
+	explore.Main("C16", scs, explore.Plan{QuickBound: 0, ThoroughBound: 0, QuickBudget: 200 * time.Second, ThoroughBudget: 15 * time.Minute, Shards: 1, Before: before},
 		"model_checking", []string{
 			"every outcome of math/rand.Shuffle (Fisher-Yates over rand.Intn) is enumerated through the scheduler's choice seam for N<=4, R<=4, P<=3; N<=16, R<=8, P in {1,2,3,5,8,16,33,64} under 8 fixed streams for the cardinality clause only",
 			"independence is checked possibilistically: the set of reachable placement tuples must equal the product of the per-partition reachable sets",
 			"the placement is observed after the call returned (as DatasetManager.Create uses it)",
 			"membership histories: add N nodes, optionally dial one, remove it, optionally add it again, then place",
 			"create scenarios: the metadata returned by the real DatasetManager.Create over a scripted raft.Group, for plain requests and requests that already carry a partition list; one fixed random stream",
+			"one allocator living through a replacement (place, a node leaves and another joins, place again); a free-running -race twin with 8 concurrent placements while a node comes and goes (sampling)",
 			"restart scenario: a partition group placed on {1,2,3} is replayed by a restarted node 1 after node 3 left; members and placement observed afterwards",
 		})
 }
